@@ -20,10 +20,12 @@
   the code; no delimiter contains CR/LF; no start delimiter contains a blank) no jump of any run passes over a line break
   (`lex_never_skews`), hence `lex_line_col_exact` holds unconditionally.  `base_cfg_clean` decides the test for the generated base
   configuration; the driver evaluates the same Lean function on every dialect's shipped configuration on each run.
-  Still NOT proved: that the inner loops never exhaust their fuel (`lex` never answers `fuel`), and that a comment span starts
-  with a comment delimiter of the configuration.
+  COMMENT SPANS (round 2): every region recorded as consumed by `_scan_comment` was opened by a comment start delimiter of the
+  configuration, and the input spells that delimiter at the start of the region (`comment_spans_start_with_delimiter`).
+  Still NOT proved: that the inner loops never exhaust their fuel (`lex` never answers `fuel`), and that a block-comment span
+  ends with its end delimiter.
 -/
-import SqlglotModel.Proofs.LexSkew
+import SqlglotModel.Proofs.LexSpans
 import SqlglotModel.Generated.C13
 
 namespace SqlglotModel.Properties.C13
@@ -180,6 +182,14 @@ theorem lex_line_col_exact (cfg : Cfg) (sql : Sql) (st : St) (hC : cleanCfg cfg 
 /-- TABLE FACT: the generated base configuration (flags probed from the live code, delimiter tables from the live classes)
     passes the hygiene test — this fails to build if one of the three position repairs is reverted -/
 theorem base_cfg_clean : cleanCfg baseCfg = true := by decide +kernel
+
+/-- WHOLE RUN: the regions of `gaps_are_space_or_comment` really are comments — each was opened by a line- or block-comment
+    start delimiter w of the configuration, and (w containing no blank, which `cleanCfg` guarantees for block comments) the
+    input spells w at the first offsets of the region -/
+theorem comment_spans_start_with_delimiter (cfg : Cfg) (sql : Sql) (st : St) (hW : WF sql) (h : lex cfg sql = .ok st) :
+    ∀ s ∈ st.spans, ∃ w, (memS w cfg.lineComments = true ∨ (lookupS w cfg.comments).isSome = true) ∧
+      ((∀ c ∈ w, c ≠ ' ') → ∀ k, k < w.length → ∃ ch, sql[s.1 + k]? = some ch ∧ w[k]? = some ch.c) :=
+  lex_spans hW h
 
 /-- … and the run consumed the whole input -/
 theorem lex_consumes_input (cfg : Cfg) (sql : Sql) (st : St) (hW : WF sql) (h : lex cfg sql = .ok st) :
